@@ -11,9 +11,12 @@ TokensDef == { R(<<"A">>), R(<<"B">>), R(<<"U">>), R(<<"~">>), R(<<"A", ".", "b"
 \* values: contain "{", "}", the index placeholder "{}", the text ENV{B}, a slash, non-ASCII, or are empty - but never "$"
 SetVarsDef == (<<"A">> :> <<"E", "N", "V", "{", "B", "}">>) @@ (<<"B">> :> <<"x">>) @@ (<<"~">> :> <<"d", "{", "}", "/", "^">>)
               @@ (<<"A", ".", "b">> :> <<>>)
+              \* the environment also holds a variable whose name is not a well-formed NAME (it starts with "."): a
+              \* reference spelled with it stays as it is
+              @@ (<<".", "A">> :> <<"q">>)
 StartDef == {"A", "B", "U", "_", "~", "1", "b"}
 PartDef == StartDef \cup {"."}
 Emit == Done => PrintT(<<"REPLAY", ToJson([input |-> Str(Input), expect |-> Str(out)])>>)
-MetaInit == Init /\ PrintT(<<"REPLAY", ToJson([meta |-> "env", vars |-> [k \in {"A", "B", "~", "A.b"} |->
-                 CASE k = "A" -> "ENV{B}" [] k = "B" -> "x" [] k = "~" -> "d{}/^" [] OTHER -> ""], unset |-> <<"U", "1", "1A", "A.", "AA">>])>>)
+MetaInit == Init /\ PrintT(<<"REPLAY", ToJson([meta |-> "env", vars |-> [k \in {"A", "B", "~", "A.b", ".A"} |->
+                 CASE k = "A" -> "ENV{B}" [] k = "B" -> "x" [] k = "~" -> "d{}/^" [] k = ".A" -> "q" [] OTHER -> ""], unset |-> <<"U", "1", "1A", "A.", "AA">>])>>)
 =============================================================================
